@@ -1,0 +1,90 @@
+//go:build verif
+
+package verifhook
+
+import (
+	"os"
+	"strconv"
+	"strings"
+	"sync"
+	"sync/atomic"
+	"syscall"
+)
+
+// Enabled reports whether the hooks are compiled in.
+const Enabled = true
+
+type handlerFunc func(kind string, path string)
+
+var (
+	stepHandler  atomic.Pointer[handlerFunc]
+	yieldHandler atomic.Pointer[handlerFunc]
+	envOnce      sync.Once
+	killKind     string
+	killAt       int64
+	stepCount    sync.Map // kind -> *int64
+)
+
+// SetStepHandler installs (or, with nil, removes) the in-process handler called before each step.
+func SetStepHandler(f func(kind string, path string)) {
+	if f == nil {
+		stepHandler.Store(nil)
+
+		return
+	}
+	h := handlerFunc(f)
+	stepHandler.Store(&h)
+}
+
+// SetYieldHandler installs (or removes) the in-process handler for Yield points.
+func SetYieldHandler(f func(kind string, path string)) {
+	if f == nil {
+		yieldHandler.Store(nil)
+
+		return
+	}
+	h := handlerFunc(f)
+	yieldHandler.Store(&h)
+}
+
+// Step is called immediately before a file-system step of the work unit protocol.
+// In a process without a handler (the detached command runner) VERIF_KILL_AT=<kind>#<n>
+// makes the process kill itself before the n-th step of that kind (n counts from 1;
+// kind "*" counts every step).
+func Step(kind string, path string) {
+	if h := stepHandler.Load(); h != nil {
+		(*h)(kind, path)
+
+		return
+	}
+	envOnce.Do(func() {
+		spec := os.Getenv("VERIF_KILL_AT")
+		if i := strings.LastIndex(spec, "#"); i > 0 {
+			n, err := strconv.ParseInt(spec[i+1:], 10, 64)
+			if err == nil && n > 0 {
+				killKind, killAt = spec[:i], n
+			}
+		}
+	})
+	if killAt == 0 {
+		return
+	}
+	key := kind
+	if killKind == "*" {
+		key = "*"
+	} else if killKind != kind {
+		return
+	}
+	v, _ := stepCount.LoadOrStore(key, new(int64))
+	if atomic.AddInt64(v.(*int64), 1) == killAt {
+		_ = syscall.Kill(os.Getpid(), syscall.SIGKILL)
+		select {}
+	}
+}
+
+// Yield is called at scheduling points of the network code.
+func Yield(kind string, path string) {
+	if h := yieldHandler.Load(); h != nil {
+		(*h)(kind, path)
+	}
+}
